@@ -1,9 +1,20 @@
 import SwayVerif.Driver.Util
-/-! Driver for C17 (stub — replace `answer`; keep `run`). -/
+/-!
+Driver for C17. Case: `mut <pkg> <file> <kind> <fingerprint> ;; ok | err | ice <class> | panic <site> | abort <how> | hang`.
+The property's predicate is exact per input: compiling terminates with artifacts (`ok`) or diagnostics (`err`);
+a panic, an "internal compiler error", a process abort or a hang is a violation whatever found it.
+-/
 namespace SwayVerif.Driver.C17
 open SwayVerif.Driver
 
-def answer (_line : String) : String := "unimplemented agree=0 prop=0"
+def answer (line : String) : String :=
+  let (c, i) := splitCase line
+  match c, i with
+  | "mut" :: _ :: _ :: kind :: _, r :: rest =>
+    let good := r = "ok" || r = "err"
+    let site := if good then "-" else "_".intercalate (r :: rest)
+    s!"terminates-with-artifacts-or-diagnostics agree=1 prop={b01 good} outcome={r} kind={(kind.splitOn "+").headD kind} site={site}"
+  | _, _ => "bad-op agree=0 prop=0"
 
 def run : IO Unit := do
   lineLoop (← IO.getStdin) (← IO.getStdout) answer
